@@ -66,6 +66,7 @@ def main(argv=None):
     ap.add_argument('--seed', type=int, default=int(os.environ.get('VERIF_SEED', '0') or 0))
     ap.add_argument('--replay')
     ap.add_argument('--jobs', type=int, default=int(os.environ.get('VERIF_JOBS', '16')))
+    ap.add_argument('--no-evidence', action='store_true', help='do not rewrite evidence/ (self-test runs on mutants)')
     ap.add_argument('--scale', type=float, default=float(os.environ.get('VERIF_SCALE', '1')),
                     help='multiply the workload size (debugging)')
     args = ap.parse_args(argv)
@@ -118,7 +119,7 @@ def main(argv=None):
 
     lines = []
     new_violations, known_seen = [], []
-    outdir = os.path.join(env.VERIF, 'out', 'replay', prop)
+    outdir = os.path.join(os.environ.get('VERIF_OUT') or os.path.join(env.VERIF, 'out'), 'replay', prop)
     for key, v in sorted(tot['violations'].items()):
         entry = known.get(key)
         if entry is not None and entry.get('status') == 'known':
@@ -143,11 +144,11 @@ def main(argv=None):
         verdict, code = 'held', 0
 
     # ---- evidence
-    if not args.replay:
+    if not args.replay and not args.no_evidence:
         cov = {
             'evaluations': tot['evaluations'],
-            'distinct_nontrivial': len(tot['nontrivial']),
-            'distinct_cases': len(tot['distinct']),
+            'distinct_nontrivial': len(tot['nontrivial']) + tot['bulk_nontrivial'],
+            'distinct_cases': len(tot['distinct']) + tot['bulk_distinct'],
             'rule': mod.RULE,
             'samples': tot['samples'][:8] or ['<none>'],
             'observed': dict(sorted(tot['observed'].items())),
@@ -184,7 +185,7 @@ def main(argv=None):
         print(f'NOTE property={prop} listed finding not observed in this run: {k}')
     obs = ' '.join(f'{k}={v}' for k, v in sorted(tot['observed'].items())[:40])
     print(f'{prop} {args.tier} seed={args.seed}: {verdict}; evaluations={tot["evaluations"]} '
-          f'distinct={len(tot["distinct"])} nontrivial={len(tot["nontrivial"])} wall={time.time() - t0:.1f}s')
+          f'distinct={len(tot["distinct"]) + tot["bulk_distinct"]} nontrivial={len(tot["nontrivial"]) + tot["bulk_nontrivial"]} wall={time.time() - t0:.1f}s')
     print(f'  observed: {obs}')
     return code
 
